@@ -75,6 +75,79 @@ var indexLemmas = map[string]string{
 	"pkg/backends/otlp/internal/data.WithHistogramDataPointCumulativeBucketValues$1:index:hdp.raw.ExplicitBounds[(phi:rangeindex+1)]#1": "a non-empty Timer.Histogram always contains the +Inf bucket (emptyHistogram and latencyHistogram store it on every path that returns a non-empty map, C08.R3), the bounds are sorted so +Inf is last, and the write is guarded by !math.IsInf(bound, 1): the index is therefore at most len(buckets)-2 = len(ExplicitBounds)-1",
 }
 
+// infLastLemma recognises the site of lemma L11 by its structure instead of its spelling: inside
+// WithHistogramDataPointCumulativeBucketValues an element i of a slice made with len(buckets)-1
+// elements is written, where i is the index at which the sorted bounds are visited and the write
+// is on the !math.IsInf(bound, 1) side of a test of the bound visited at i.
+func infLastLemma(ob bndOb) bool {
+	if ob.Kind != "index" || ob.Fn == nil {
+		return false
+	}
+	outer := ob.Fn
+	for outer.Parent() != nil {
+		outer = outer.Parent()
+	}
+	if !strings.HasPrefix(outer.Name(), "WithHistogramDataPointCumulativeBucketValues") || !strings.HasSuffix(fnPkgPath(outer), "/otlp/internal/data") {
+		return false
+	}
+	ia, ok := ob.In.(*ssa.IndexAddr)
+	if !ok {
+		return false
+	}
+	// the slice: made with len(<map>) - 1 elements
+	mk, ok := ptrOrigin(ia.X).(*ssa.MakeSlice)
+	if !ok {
+		// through a field of the data point: find the store of a MakeSlice into that field in this function
+		if ld, isLd := ia.X.(*ssa.UnOp); isLd {
+			for _, st := range storesIn(ob.Fn) {
+				if pathOf(st.Addr) == pathOf(ld.X) {
+					mk, ok = st.Val.(*ssa.MakeSlice)
+				}
+			}
+		}
+	}
+	if !ok || mk == nil {
+		return false
+	}
+	sub := asBinOp(mk.Len, token.SUB)
+	if sub == nil {
+		return false
+	}
+	if one, isC := constInt(sub.Y); !isC || one != 1 {
+		return false
+	}
+	lc, isLen := sub.X.(*ssa.Call)
+	if !isLen || !isCall(lc, "builtin len") {
+		return false
+	}
+	if _, isMap := lc.Call.Args[0].Type().Underlying().(*types.Map); !isMap {
+		return false
+	}
+	// a known-false math.IsInf(x, 1) whose x is the element visited at the same index
+	for _, f := range factsAt(ia.Block()) {
+		if f.Op != token.ILLEGAL || f.True {
+			continue
+		}
+		cl, isCl := f.V.(*ssa.Call)
+		if !isCl || !isCall(cl, "math.IsInf") {
+			continue
+		}
+		if sign, isC := constInt(cl.Call.Args[1]); !isC || sign != 1 {
+			continue
+		}
+		x := stripConvVal(cl.Call.Args[0])
+		if cv, isCv := x.(*ssa.Convert); isCv {
+			x = cv.X
+		}
+		if ld, isLd := x.(*ssa.UnOp); isLd && ld.Op == token.MUL {
+			if ia2, isIA := ld.X.(*ssa.IndexAddr); isIA && ia2.Index == ia.Index {
+				return true
+			}
+		}
+	}
+	return false
+}
+
 // obKeyNoGenerics drops the type-argument list of generic instantiations from a key.
 func obKeyNoGenerics(k string) string {
 	for {
@@ -361,6 +434,10 @@ func (e *bndEngine) discharge(ob bndOb) bndResult {
 		return bndResult{false, "explicit abort " + ob.Expr + " reachable from the scope's entry points and not allow-listed", nil}
 	}
 	if why, ok := indexLemmas[obKeyNoGenerics(ob.Key)]; ok {
+		return bndResult{true, "lemma: " + why, []string{"lemma L11: " + why}}
+	}
+	if infLastLemma(ob) {
+		why := indexLemmas["pkg/backends/otlp/internal/data.WithHistogramDataPointCumulativeBucketValues$1:index:hdp.raw.ExplicitBounds[(phi:rangeindex+1)]#1"]
 		return bndResult{true, "lemma: " + why, []string{"lemma L11: " + why}}
 	}
 	p := e.newProver(ob.Fn, ob.In)
@@ -1070,6 +1147,9 @@ func fullyPopulated(ms *ssa.MakeSlice) (bool, string) {
 				if st, isSt := ref.(*ssa.Store); isSt && st.Val == a {
 					continue
 				}
+				if cl, isCl := ref.(*ssa.Call); isCl && (isCall(cl, "builtin len") || isCall(cl, "builtin cap")) {
+					continue // the length is fixed when the slice is made; no element is read
+				}
 				uses = append(uses, ref)
 				continue
 			}
@@ -1098,7 +1178,18 @@ func fullyPopulated(ms *ssa.MakeSlice) (bool, string) {
 			return false, "stored element is not a fresh allocation or call result: " + exprString(st.Val, 0)
 		}
 		ia := st.Addr.(*ssa.IndexAddr)
+		// the counter: i (a phi starting at 0) or, in the form range loops compile to, phi+1 with the phi starting at -1
 		phi, ok := ia.Index.(*ssa.Phi)
+		var counter ssa.Value = ia.Index
+		first := int64(0)
+		if !ok {
+			if b := asBinOp(ia.Index, token.ADD); b != nil {
+				if one, isC := constInt(b.Y); isC && one == 1 {
+					phi, ok = b.X.(*ssa.Phi)
+					first = -1
+				}
+			}
+		}
 		if !ok {
 			why = "element index is not a loop counter: " + exprString(ia.Index, 0)
 			continue
@@ -1110,14 +1201,28 @@ func fullyPopulated(ms *ssa.MakeSlice) (bool, string) {
 			continue
 		}
 		cmp, ok := ifi.Cond.(*ssa.BinOp)
-		if !ok || cmp.Op != token.LSS || cmp.X != phi || !(cmp.Y == ms.Len || (pathOf(cmp.Y) != "" && pathOf(cmp.Y) == pathOf(ms.Len))) {
+		lenOfSelf := false
+		if lc, isC := cmp.Y.(*ssa.Call); ok && isC && isCall(lc, "builtin len") {
+			for _, a := range aliases {
+				if lc.Call.Args[0] == a {
+					lenOfSelf = true // i < len(s): the slice's own length (it is never re-assigned)
+				}
+			}
+			// or the length of another slice that was made with the same size and is never re-assigned
+			if other, isMk := ptrOrigin(lc.Call.Args[0]).(*ssa.MakeSlice); isMk && pathOf(other.Len) != "" && pathOf(other.Len) == pathOf(ms.Len) {
+				if _, isConstOrField := other.Len.(*ssa.Call); !isConstOrField {
+					lenOfSelf = true
+				}
+			}
+		}
+		if !ok || cmp.Op != token.LSS || cmp.X != counter || !(lenOfSelf || cmp.Y == ms.Len || (pathOf(cmp.Y) != "" && pathOf(cmp.Y) == pathOf(ms.Len))) {
 			why = "loop bound is not i < len: " + exprString(ifi.Cond, 0)
 			continue
 		}
 		// init 0, step +1
 		okInit, okStep := false, false
 		for _, e := range phi.Edges {
-			if n, isC := constInt(e); isC && n == 0 {
+			if n, isC := constInt(e); isC && n == first {
 				okInit = true
 			} else if b, isB := e.(*ssa.BinOp); isB && b.Op == token.ADD && b.X == phi {
 				if n, isC := constInt(b.Y); isC && n == 1 {
